@@ -37,6 +37,7 @@ theorem applyFn1_rowwise (f : Fr.Frame) (L : Nat) (h : Fr.WF f L) (fn : Fr.Val â
 -- (`QFrame.setColumn` stays: its column work is regenerated as `Gen.projectAst`, but `C08ProjectGen` cannot be imported next to `C06LoopsGen` -
 -- `QF.Core.PExpr` and `QF.Core.LExpr` both declare `QF.PCol` - so no theorem of this property would see a change of it.)
 -- `setColumn` is regenerated in `Gen.projectAst` (C08ProjectGen, now in this property's list: gen_project_semantics, gen_project_persistent).
-theorem tie : Tie.sameAll ["qframe.QFrame.apply1", "qframe.QFrame.apply2", "qframe.QFrame.FilteredApply", "qframe.QFrame.WithRowNums", "scolumn.toUpper", "ecolumn.toUpper"] = true := by decide
+-- FilteredApply, WithRowNums and the two built-in toUpper functions are regenerated in `Gen.fapplyAst` / `rowNumsFnAst` / `supperTable` / `eupperTable` (C06FApplyGen).
+theorem tie : Tie.sameAll ["qframe.QFrame.apply1", "qframe.QFrame.apply2"] = true := by decide
 
 end QF.Props.C06
